@@ -1,0 +1,176 @@
+//go:build verif
+
+package dhcpv4
+
+// Contracts and specification functions for the deductive verification in /verif (build tag "verif").
+// This file adds declarations only; it changes no function of the package.
+//
+// The specification functions are an independent reading of RFC 2131 section 2 (BOOTP header layout, magic cookie),
+// RFC 2132 section 2 (pad / end / code-length-value options) and RFC 3396 (an option split over several instances is
+// the concatenation of the instances in order of appearance).
+
+// ---------- options area: acceptance, presence and value per code ----------
+
+// specOptsOK: the options area a, read from position p, is a well-formed run of pad bytes and code/length/value
+// options. With chk (a whole packet) a non-empty area must be terminated by an End option; bytes after End are ignored.
+
+//@ contract specOptsOK
+//@   decreases len(a) - p
+func specOptsOK(a string, p int, chk bool) bool {
+	if p < 0 {
+		return false
+	}
+	if p >= len(a) {
+		return !chk || len(a) == 0
+	}
+	if a[p] == 0 {
+		return specOptsOK(a, p+1, chk)
+	}
+	if a[p] == 255 {
+		return true
+	}
+	if p+1 >= len(a) {
+		return false
+	}
+	if p+2+int(a[p+1]) > len(a) {
+		return false
+	}
+	return specOptsOK(a, p+2+int(a[p+1]), chk)
+}
+
+// specOptHas: option code c occurs in a from position p on (acc: it occurred before p).
+
+//@ contract specOptHas
+//@   decreases len(a) - p
+func specOptHas(a string, p int, c uint8, acc bool) bool {
+	if p < 0 || p >= len(a) {
+		return acc
+	}
+	if a[p] == 0 {
+		return specOptHas(a, p+1, c, acc)
+	}
+	if a[p] == 255 {
+		return acc
+	}
+	if p+1 >= len(a) || p+2+int(a[p+1]) > len(a) {
+		return acc
+	}
+	return specOptHas(a, p+2+int(a[p+1]), c, acc || a[p] == c)
+}
+
+// specOptVal: the value of option c = concatenation of the values of its instances in order (RFC 3396); acc is the
+// concatenation of the instances before p.
+
+//@ contract specOptVal
+//@   decreases len(a) - p
+func specOptVal(a string, p int, c uint8, acc string) string {
+	if p < 0 || p >= len(a) {
+		return acc
+	}
+	if a[p] == 0 {
+		return specOptVal(a, p+1, c, acc)
+	}
+	if a[p] == 255 {
+		return acc
+	}
+	if p+1 >= len(a) || p+2+int(a[p+1]) > len(a) {
+		return acc
+	}
+	if a[p] == c {
+		return specOptVal(a, p+2+int(a[p+1]), c, acc+a[p+2:p+2+int(a[p+1])])
+	}
+	return specOptVal(a, p+2+int(a[p+1]), c, acc)
+}
+
+//@ define optPos(buf, data) = off(buf.Buffer.data) - off(data)
+
+// fromBytesCheckEnd, for a fresh (empty) option map: acceptance is exactly specOptsOK, and on acceptance the map holds
+// exactly the codes and RFC 3396 values of the area. The map's values are freshly allocated (never alias data).
+//@ contract (Options).fromBytesCheckEnd
+//@   let a0 = string(data)
+//@   requires o != nil && (forall c uint8 :: {mapdom(o, c)} !has(o, c))
+//@   modifies o
+//@   ensures[accept-checked] checkEndOption ==> ((err == nil) == specOptsOK(a0, 0, true))
+//@   ensures[accept-unchecked] !checkEndOption ==> ((err == nil) == specOptsOK(a0, 0, false))
+//@   ensures[codes] err == nil ==> (forall c uint8 :: {mapdom(o, c)} has(o, c) == specOptHas(a0, 0, c, false))
+//@   ensures[values] err == nil ==> (forall c uint8 :: {mapval(o, c)} {mapdom(o, c)} string(o[c]) == specOptVal(a0, 0, c, ""))
+//@   ensures[fresh] forall c uint8 :: {mapval(o, c)} {mapdom(o, c)} has(o, c) ==> fresh(o[c])
+//@   ensures[input-unchanged] string(data) == a0
+//@   loop 0 invariant[lexer] lexOK(buf) && fresh(buf) && fresh(buf.Buffer) && allocated(buf) && allocated(buf.Buffer)
+//@   loop 0 invariant[suffix] ref(buf.Buffer.data) == ref(data) && optPos(buf, data) >= 0 && optPos(buf, data) <= len(data) && len(buf.Buffer.data) == len(data) - optPos(buf, data)
+//@   loop 0 invariant[map] o != nil && ref(o) != ref(buf) && ref(o) != ref(buf.Buffer)
+//@   loop 0 invariant[owned] forall c uint8 :: {mapval(o, c)} {mapdom(o, c)} has(o, c) ==> fresh(o[c]) && (o[c] == nil || allocated(o[c])) && ref(o[c]) != ref(buf) && ref(o[c]) != ref(buf.Buffer) && off(o[c]) >= 0 && len(o[c]) >= 0 && len(o[c]) <= cap(o[c])
+//@   loop 0 invariant[distinct] forall c uint8, e uint8 :: {mapval(o, c), mapval(o, e)} c != e && has(o, c) && has(o, e) && o[c] != nil ==> ref(o[c]) != ref(o[e])
+//@   loop 0 invariant[absent] forall c uint8 :: {mapval(o, c)} {mapdom(o, c)} !has(o, c) ==> o[c] == nil
+//@   loop 0 invariant[work-ok] buf.err == nil ==> specOptsOK(a0, 0, checkEndOption) == specOptsOK(a0, optPos(buf, data), checkEndOption)
+//@   loop 0 invariant[work-codes] buf.err == nil ==> (forall c uint8 :: {specOptHas(a0, 0, c, false)} specOptHas(a0, 0, c, false) == specOptHas(a0, optPos(buf, data), c, has(o, c)))
+//@   loop 0 invariant[work-values] buf.err == nil ==> (forall c uint8 :: {specOptVal(a0, 0, c, "")} specOptVal(a0, 0, c, "") == specOptVal(a0, optPos(buf, data), c, string(o[c])))
+//@   loop 0 invariant[noerr] buf.err == nil
+//@   loop 0 decreases 2*len(buf.Buffer.data) + ite(buf.err == nil, 1, 0)
+
+//@ contract (Options).FromBytes
+//@   let a0 = string(data)
+//@   requires o != nil && (forall c uint8 :: {mapdom(o, c)} !has(o, c))
+//@   modifies o
+//@   ensures[accept] (err == nil) == specOptsOK(a0, 0, false)
+//@   ensures[codes] err == nil ==> (forall c uint8 :: {mapdom(o, c)} has(o, c) == specOptHas(a0, 0, c, false))
+//@   ensures[values] err == nil ==> (forall c uint8 :: {mapval(o, c)} {mapdom(o, c)} string(o[c]) == specOptVal(a0, 0, c, ""))
+//@   ensures[fresh] forall c uint8 :: {mapval(o, c)} {mapdom(o, c)} has(o, c) ==> fresh(o[c])
+
+// ---------- packet header ----------
+
+// specIndexNul: position of the first NUL byte of s at or after i, len(s) if there is none.
+//@ contract specIndexNul
+//@   decreases len(s) - i
+//@   ensures result >= 0 && result <= len(s) && (i >= 0 && i <= len(s) ==> result >= i)
+func specIndexNul(s string, i int) int {
+	if i < 0 || i >= len(s) {
+		return len(s)
+	}
+	if s[i] == 0 {
+		return i
+	}
+	return specIndexNul(s, i+1)
+}
+
+// specCutNul: a fixed-size name field is cut at its first NUL byte.
+func specCutNul(s string) string { return s[:specIndexNul(s, 0)] }
+
+// assumed contract of the standard library (only the NUL-search use is specified)
+//@ contract strings.Index
+//@   trusted
+//@   ensures result >= -1 && result+len(substr) <= len(s)
+//@   ensures substr == "\x00" ==> result == ite(specIndexNul(s, 0) == len(s), -1, specIndexNul(s, 0))
+
+// specAcceptV4: RFC 2131 -- 236-byte BOOTP header, magic cookie 99.130.83.99, then a well-formed options area that is
+// empty or terminated by End.
+func specAcceptV4(s string) bool {
+	return len(s) >= 240 && s[236] == 99 && s[237] == 130 && s[238] == 83 && s[239] == 99 && specOptsOK(s[240:], 0, true)
+}
+
+func specMin(a int, b int) int {
+	if a < b {
+		return a
+	}
+	return b
+}
+
+//@ contract FromBytes
+//@   let s0 = string(q)
+//@   let opts0 = string(q[240:])
+//@   ensures[accept] (err == nil) == specAcceptV4(s0)
+//@   ensures[result] (err == nil) == (result0 != nil)
+//@   ensures[fresh] fresh(result0)
+//@   ensures[op-htype-hops] err == nil ==> int(result0.OpCode) == int(s0[0]) && int(result0.HWType) == int(s0[1]) && int(result0.HopCount) == int(s0[3])
+//@   ensures[xid] err == nil ==> string(result0.TransactionID[:]) == s0[4:8]
+//@   ensures[secs-flags] err == nil ==> int(result0.NumSeconds) == int(s0[8])*256+int(s0[9]) && int(result0.Flags) == int(s0[10])*256+int(s0[11])
+//@   ensures[ciaddr] err == nil ==> string(result0.ClientIPAddr) == s0[12:16] && fresh(result0.ClientIPAddr)
+//@   ensures[yiaddr] err == nil ==> string(result0.YourIPAddr) == s0[16:20] && fresh(result0.YourIPAddr)
+//@   ensures[siaddr] err == nil ==> string(result0.ServerIPAddr) == s0[20:24] && fresh(result0.ServerIPAddr)
+//@   ensures[giaddr] err == nil ==> string(result0.GatewayIPAddr) == s0[24:28] && fresh(result0.GatewayIPAddr)
+//@   ensures[chaddr] err == nil ==> string(result0.ClientHWAddr) == s0[28:28+specMin(int(s0[2]), 16)] && fresh(result0.ClientHWAddr)
+//@   ensures[sname] err == nil ==> result0.ServerHostName == specCutNul(s0[44:108])
+//@   ensures[file] err == nil ==> result0.BootFileName == specCutNul(s0[108:236])
+//@   ensures[option-codes] err == nil ==> result0.Options != nil && (forall c uint8 :: {mapdom(result0.Options, c)} has(result0.Options, c) == specOptHas(opts0, 0, c, false))
+//@   ensures[option-values] err == nil ==> (forall c uint8 :: {mapval(result0.Options, c)} {mapdom(result0.Options, c)} string(result0.Options[c]) == specOptVal(opts0, 0, c, ""))
+//@   ensures[options-fresh] err == nil ==> fresh(result0.Options) && (forall c uint8 :: {mapval(result0.Options, c)} {mapdom(result0.Options, c)} has(result0.Options, c) ==> fresh(result0.Options[c]))
